@@ -1462,7 +1462,46 @@ fn binary_check<C: Label>(
                 c.count("fit-hang-watchdog");
                 return Err(inconclusive(HANG_REASON));
             }
-            _ => {}
+            _ => {
+                // the longer run failed (e.g. the line search gave up later on): ask the other way
+                // round - had the solver already stopped on its own at half the budget?
+                let mut cfg3 = cfg.clone();
+                cfg3.max_iter = (cfg.max_iter / 2).max(1);
+                match bin_fit::<C>(fl, x, ycls, ns, &cfg3, layout) {
+                    FitOut::Ok(m3) if m3.w() == w && m3.b() == b => {}
+                    FitOut::Hang => return Err(inconclusive(HANG_REASON)),
+                    _ => {
+                        c.count("budget-exhausted");
+                        return Err(inconclusive("iteration budget exhausted before the solver's own stop (still moving in the second half of the budget; the longer run errs)"));
+                    }
+                }
+            }
+        }
+        if fl != Fl::F64 {
+            // the f32 line-search limitation recorded for the Tweedie fits, met in a logistic fit: from
+            // the returned point no admissible step s in [sqrt(eps_f32), 1] along steepest descent
+            // lowers the documented objective sufficiently (curvature far above 1/sqrt(eps_f32))
+            let gg: f64 = e.grad.iter().map(|v| v * v).sum();
+            let mut blocked = true;
+            let mut s_try = fl.eps().sqrt();
+            while blocked && s_try <= 1.0 {
+                let wt: Vec<f64> = (0..p).map(|k| w[k] - s_try * e.grad[k]).collect();
+                let bt = if cfg.intercept { b - s_try * e.grad[p] } else { b };
+                let jt = binary_eval(x, &t, alpha, &wt, bt, cfg.intercept).j;
+                if jt.is_finite() && jt <= e.j - 1e-4 * s_try * gg {
+                    blocked = false;
+                }
+                s_try *= 1.25;
+            }
+            if blocked {
+                fail!("C12/binary/f32-line-search-blocked-at-returned-point", {"A_ratio": jd.g_inf / jd.thr, "case": ctxj, "grad_inf": jd.g_inf,
+                    "threshold": jd.thr, "tol": cfg.tol_eff(), "G": e.g_scale, "grad": fvec(&e.grad), "w": fvec(&w), "b": b, "objective": e.j, "oracle_minimum": j_star});
+            }
+        }
+        if let Ok(dir) = std::env::var("C12_DUMP") {
+            let _ = std::fs::write(format!("{dir}/binary-{}.json", c.idx), serde_json::to_string(&json!({
+                "x": x.rows().into_iter().map(|r| r.to_vec()).collect::<Vec<_>>(), "t": t, "alpha": alpha,
+                "intercept": cfg.intercept, "tol": cfg.tol_eff(), "max_iter": cfg.max_iter, "w": fvec(&w), "b": b})).unwrap());
         }
         fail!("C12/binary/not-stationary", {"A_ratio": jd.g_inf / jd.thr, "case": ctxj, "grad_inf": jd.g_inf, "threshold": jd.thr,
             "tol": cfg.tol_eff(), "G": e.g_scale, "grad": fvec(&e.grad), "w": fvec(&w), "b": b,
@@ -1670,7 +1709,23 @@ fn multi_check<C: Label>(
                 c.count("fit-hang-watchdog");
                 return Err(inconclusive(HANG_REASON));
             }
-            _ => {}
+            _ => {
+                let mut cfg3 = cfg.clone();
+                cfg3.max_iter = (cfg.max_iter / 2).max(1);
+                match multi_fit::<C>(fl, x, ycls, ns, &cfg3, layout) {
+                    FitOut::Ok(m3) if m3.w().0 == w && m3.b() == b => {}
+                    FitOut::Hang => return Err(inconclusive(HANG_REASON)),
+                    _ => {
+                        c.count("budget-exhausted");
+                        return Err(inconclusive("iteration budget exhausted before the solver's own stop (still moving in the second half of the budget; the longer run errs)"));
+                    }
+                }
+            }
+        }
+        if let Ok(dir) = std::env::var("C12_DUMP") {
+            let _ = std::fs::write(format!("{dir}/multi-{}.json", c.idx), serde_json::to_string(&json!({
+                "x": x.rows().into_iter().map(|r| r.to_vec()).collect::<Vec<_>>(), "y": ycol, "k": k, "alpha": alpha,
+                "intercept": cfg.intercept, "tol": cfg.tol_eff(), "max_iter": cfg.max_iter, "W": fvec(&w), "b": fvec(&b)})).unwrap());
         }
         fail!("C12/multi/not-stationary", {"A_ratio": jd.g_inf / jd.thr, "case": ctxj, "grad_inf": jd.g_inf, "threshold": jd.thr,
             "tol": cfg.tol_eff(), "G": e.g_scale, "grad": fvec(&e.grad), "W": fvec(&w), "b": fvec(&b),
@@ -2462,7 +2517,18 @@ fn case_tweedie_random(c: &mut Case) -> Outcome {
                 c.count("fit-hang-watchdog");
                 return inconclusive(HANG_REASON);
             }
-            _ => {}
+            _ => {
+                let mut cfg3 = cfg.clone();
+                cfg3.max_iter = (cfg.max_iter / 2).max(1);
+                match glm_fit(fl, &d.f.x, &d.y, &cfg3, layout) {
+                    FitOut::Ok(m3) if m3.w() == w && m3.b() == b => {}
+                    FitOut::Hang => return inconclusive(HANG_REASON),
+                    _ => {
+                        c.count("budget-exhausted");
+                        return inconclusive("iteration budget exhausted before the solver's own stop (still moving in the second half of the budget; the longer run errs)");
+                    }
+                }
+            }
         }
         // discriminating predicate of the known line-search limitation: the solver made no move
         // at all (coefficients exactly zero, intercept still link(mean y)) and reported success
